@@ -71,3 +71,21 @@ Theorem C04_known_names_as_operands : forall O, is_space O 32%N = true ->
   parse_tokens O T false false text = Ok (tree_or d).
 Proof. exact layout_parses_derivation. Qed.
 Print Assumptions C04_known_names_as_operands.
+
+(* over any table Licensing() accepted, none of whose names holds an operator word or a parenthesis: the license a name resolves
+   to is the one that declares it - a text with the lower-cased words of a key or alias of an entry (any letter case, any white
+   space) parses to that entry's symbol and renders as its canonical key. validate_symbols is what makes the owner unique
+   (accepted_names_unambiguous). *)
+Require Import Proofs.Strings Proofs.Accepted.
+Theorem C04_names_of_an_accepted_table : forall O, is_space O 32%N = true ->
+  (forall c, In c [97; 110; 100; 111; 114; 119; 105; 116; 104; 40; 41]%N -> is_space O c = false /\ lower_ch O c = [c]) ->
+  (forall c, is_space O c = true -> lower_ch O c = [c]) ->
+  (forall c, is_space O c = false -> lower_ch O c <> [] /\ nospace O (lower_ch O c)) ->
+  forall raw T : list entry, new_licensing O raw = Ok T ->
+  (forall n v, In (n, v) (flat_map (entry_adds O) T) -> forall w, In w (lwords O n) -> is_keyword_str w = false) ->
+  forall e n v text, In e T -> In (n, v) (entry_adds O e) -> lwords O n <> [] -> lwords O text = lwords O n ->
+  parse O T false false false text = Ok (Some (Lit (Plain (entry_sym e)))) /\
+  render (Lit (Plain (entry_sym e))) = ekey e /\
+  validate O T false text = {| normalized := Some (ekey e); errors := []; invalid_symbols := [] |}.
+Proof. exact accepted_name_resolves. Qed.
+Print Assumptions C04_names_of_an_accepted_table.
